@@ -314,6 +314,11 @@ def r3_r5_counts(ctx):
     hdr = ctx.prog.func(f'{IMP}._compute_header_token')
     sop = ctx.prog.func(f'{IMP}._compute_spine_operator_token')
     run_ = ctx.prog.func(f'{IMP}.run')
+    for h_ in (hdr, sop):
+        # the counting below is per function: a helper that hands the continuations back to its caller (returns them) moves the
+        # push into the caller's data flow, which these rules do not follow
+        if any(v_ is not None and not (isinstance(v_, ast.Constant) and v_.value is None) for _, v_, sp_ in symex.returns(h_) if sp_.end == 'return'):
+            raise AnalysisError(f'{h_.loc}: {h_.name} returns a value to its caller: the continuations are not pushed where the rule counts them')
     # helper: header -> constant (1 node, 1 continuation)
     hc = path_counts(ctx, hdr, docstring_free(hdr.body), {})
     live = [(sp, a, b) for sp, a, b in hc if sp.end != 'raise']
@@ -623,7 +628,13 @@ def r6_bookkeeping(ctx):
             ctx.check(sp.end == 'raise', 'R6', add.loc, add.qualname, 'stage-beyond-raises', 'a stage beyond the next one raises')
             continue
         want_stage = f'self.stages.append([{node_expr}])' if name == 'new-stage' else f'self.stages[{stage_p}].append({node_expr})'
-        ctx.check(want_stage in evs and sp.end == 'return' and src(sp.value) == node_expr, 'R6', add.loc, add.qualname,
+        in_stage = want_stage in evs
+        if not in_stage and name == 'new-stage':
+            # the same through a named list: v = []; self.stages.append(v); v.append(node)
+            fresh = [e.target[0] for e in sp.events if e.kind == 'assign' and isinstance(e.expr, ast.List) and not e.expr.elts and e.target]
+            in_stage = any(f'self.stages.append({v_})' in evs and f'{v_}.append({node_expr})' in evs
+                           and evs.index(f'self.stages.append({v_})') >= 0 for v_ in fresh)
+        ctx.check(in_stage and sp.end == 'return' and src(sp.value) == node_expr, 'R6', add.loc, add.qualname,
                   f'stage-list:{name}', f'{name}: the node is appended to its stage list and returned',
                   f'{name}: stage bookkeeping is {evs}')
         ctx.check(f'{parent_p}.children.append({node_expr})' in evs and
